@@ -192,6 +192,43 @@ def cuts_to_sched(cuts, n):
     return out
 
 
+def count_sweep(S, rnd, windex, limit, cnt, res, prefix="c01", kinds=("headers", "query", "cookies", "form")):
+    """requests with exactly k header lines / query fields / cookies / form fields for every k up to the limit (the workers share
+    the range): element counts are where tables grow, and each count is a well-formed request that must be delivered like any other"""
+    for k in range(windex, limit, 16):
+        for what in kinds:
+            r = proto.Req(method=b"POST" if what == "form" else b"GET", script=rnd.choice([b"/echo", b"/aecho"]), path_info=b"/sweep", token=b"S%d" % k)
+            r.form = None
+            r.cookie_list = []
+            if what == "headers":
+                r.headers = [(b"X-Sweep-%d" % i, b"v%d" % i) for i in range(k)]
+            elif what == "query":
+                r.query = b"&".join(b"q%03d=%d" % (i, i) for i in range(k))
+            elif what == "cookies":
+                if k:
+                    r.cookie_list = [(b"c%d" % i, b"%d" % i) for i in range(k)]
+                    r.headers = [(b"Cookie", b"; ".join(n + b"=" + v for n, v in r.cookie_list))]
+            else:
+                r.form = [(b"f%03d" % i, b"%d" % i) for i in range(k)]
+                r.body = b"&".join(a + b"=" + b for a, b in r.form)
+                r.content_type = b"application/x-www-form-urlencoded"
+            for pn in ("http", "scgi", "fastcgi"):
+                data = proto.http_encode(r) if pn == "http" else proto.scgi_encode(r) if pn == "scgi" else proto.fcgi_encode(r)
+                where = pn + "-count-sweep"
+                rp = {"proto": pn, "bytes": data[:6000].hex(), "len": len(data), "sweep": what, "count": k}
+
+                def viol(key, detail, rp=rp):
+                    res["viol"].append({"key": key, "detail": "%s (request with exactly %d %s)" % (detail, k, what), "replay": rp})
+                outs = roundtrip(S, pn, data, [])
+                echo, err = body_of(pn, outs[0])
+                cnt("sweep_requests")
+                if echo is None:
+                    viol(prefix + ":well-formed-request-not-answered:" + where, err)
+                    return
+                if not check_echo(r, echo, where, viol):
+                    return
+
+
 def worker(args):
     basedir, exe, seed, ncases, windex = args
     rnd = random.Random(seed)
@@ -203,6 +240,7 @@ def worker(args):
     try:
         S = srv.Server(basedir, exe, "srv%d" % windex, overrides={"security": {"content_length_limit": 1024}})
         t_end = time.time() + 3600
+        count_sweep(S, rnd, windex, 140 if ncases < 50 else 560, cnt, res)
         for ci in range(ncases):
             if time.time() > t_end or res["viol"]:
                 break
